@@ -20,6 +20,7 @@ def tables : Tables where
   handlerErrorClass := Generated.C07.handlerErrorClass
   errorClasses := Generated.C07.errorClasses
   asyncActions := Generated.C07.asyncActions
+  stateActions := Generated.C07.stateActions
 
 /-! hex transport of byte strings -/
 def hexVal (c : Char) : Option Nat :=
@@ -131,6 +132,30 @@ def handle (j : Json) : R Json := do
     let outs ← (← fldArr j "outs").mapM (fun c => do unhex (← c.getStr?))
     let subs ← (← fldArr j "subscribed").mapM (fun c => do unhex (← c.getStr?))
     return Json.mkObj [("bad", jopt jnat (judgeEvents tables subs outs))]
+  | "neutral" =>
+    -- which request lines of the stream may be left out without any effect on other answers
+    let stream ← fldHex j "stream"
+    return Json.mkObj [("neutral", jarr ((splitLines stream).lines.map (fun l => Json.bool (Neutral tables l))))]
+  | "judge_indep" =>
+    -- per connection: the stream, the marks (true = the line stays), what was emitted for all lines / for the kept lines
+    let conns ← fldArr j "conns"
+    let mut bad := Json.null
+    let mut ci := 0
+    for c in conns do
+      let stream ← fldHex c "stream"
+      let keep ← (← fldArr c "keep").mapM (fun b => b.getBool?)
+      let oa ← (← fldArr c "all").mapM (fun x => do unhex (← x.getStr?))
+      let ok ← (← fldArr c "kept").mapM (fun x => do unhex (← x.getStr?))
+      let lines := (splitLines stream).lines
+      if keep.length != lines.length then throw "judge_indep: one mark per request line expected"
+      match judgeIndep tables (lines.zip keep) oa ok with
+      | .ok => pure ()
+      | .notNeutral k =>
+        if bad.isNull then bad := Json.mkObj [("clause", Json.str "case_drops_state_request"), ("conn", jnat ci), ("k", jnat k)]
+      | .changed k =>
+        if bad.isNull then bad := Json.mkObj [("clause", Json.str "answer_changed"), ("conn", jnat ci), ("k", jnat k)]
+      ci := ci + 1
+    return Json.mkObj [("bad", bad)]
   | _ => throw s!"C07: unknown verb {k}"
 
 end Frappy.Drive.C07
